@@ -329,6 +329,25 @@ def r6(ctx):
             ctx.check("ServerSSM.await_response:abort", names.count("set_state") == 1 and names.count("request") == 1, where(c.module, f), "a client abort must end the transaction and be passed to the application")
 
 
+    # the transaction that suppresses duplicates lives as long as the application may still answer: every entry into
+    # AWAIT_RESPONSE is timed with the application timeout (a shorter timer forgets the request while it is being served,
+    # and the client's retransmission is then handed up as a new request)
+    sites = []
+    for name, m_ in c.methods.items():
+        for call in calls_in(m_):
+            if self_call(call) == "set_state" and len(call.args) >= 2 and norm(call.args[0]) == "AWAIT_RESPONSE":
+                sites.append((name, call))
+    if len(sites) < 2:
+        raise ShapeError("ServerSSM: %d transitions into AWAIT_RESPONSE found" % len(sites))
+    for name, call in sites:
+        try:
+            v = ev.value(call.args[1], {"self.ssmSAP.applicationTimeout": 3000, "self.applicationTimeout": 3000, "self.segmentTimeout": 1500, "self.apduTimeout": 2000})
+        except Exception:
+            v = None
+        ctx.check("ServerSSM.%s:await-response-timed-by-application-timeout" % name, v == 3000, where(c.module, call),
+                  "AWAIT_RESPONSE is entered with timer %s: the transaction must wait for the application for the application timeout" % norm(call.args[1]))
+
+
 @rule("C11.R7", "requests to one peer are serialised by a per-peer queue that is forgotten only when it is idle, and each completion is applied to the request that is active for that peer", floor=12, engines="E1 paths + E5 (shared with C04.R6)")
 def r7(ctx):
     from . import c04
